@@ -118,6 +118,8 @@ impl Story {
 
     /// Loads a previously saved state in JSON format.
     pub fn load_state(&mut self, json_state: &str) -> Result<(), StoryError> {
+        self.if_async_we_cant("load a saved state")?;
+
         self.get_state_mut().load_json(json_state)
     }
 
